@@ -39,3 +39,4 @@ package sqlx
 //@   loop 2 invariant (change&schema.ChangeRefTable != 0) == (from.RefTable.Name != to.RefTable.Name)
 //@   loop 2 invariant (change&schema.ChangeRefColumn != 0) == (from.RefTable.Name != to.RefTable.Name ||
 //@           len(from.RefColumns) != len(to.RefColumns) || gvcNamesDiffer(from.RefColumns, to.RefColumns, len(from.RefColumns)))
+
